@@ -44,6 +44,8 @@ def _nhwc_programs() -> dict[str, dict[str, Any]]:
     add("avg_pool", lambda x: lax.reduce_window(x, 0.0, lax.add, (1, 2, 2, 1), (1, 2, 2, 1), "VALID") / 4.0, [S])
     add("two_outputs_one_3d", lambda x: (jnp.tanh(x), x.sum(axis=1)), [S])
     add("symbolic_batch", lambda x, y: x * 2 + y, [("B", 4, 4, 3), ("B", 4, 4, 3)])
+    add("symbolic_hw_pool_by_shape", lambda x: x - jnp.sum(x, axis=(1, 2), keepdims=True) / (x.shape[1] * x.shape[2]), [("B", "H", "W", 3)])
+    add("symbolic_hw_tokens", lambda x: lax.reshape(x, (x.shape[0], x.shape[1] * x.shape[2], 3)).sum(axis=1)[:, None, None, :] + x, [("B", "H", "W", 3)])
     add("add_forest", lambda a, b, c: (a + b) + (c + a), [Q, Q, Q])
     add("softmax_channels", lambda x: jax.nn.softmax(x, axis=-1), [S])
     add("concat_channels", lambda x, y: jnp.concatenate([x, y], axis=-1), [S, S])
@@ -153,7 +155,7 @@ def run_case(case: dict[str, Any], tier: str, seed: int) -> dict[str, Any]:
         if not prog.numeric:
             return {"status": "skipped", "reason": "metadata_skips_numeric_validation"}
     rng = np.random.default_rng([seed, stable_hash(case["key"]) % 2**31])
-    binding = {s: 3 for s in prog.symbols}
+    binding = {s: v for s, v in zip(prog.symbols, (2, 5, 4, 7))}
     sig = prog.signature(binding)
     in4 = [i for i, (s, _) in enumerate(sig) if len(s) == 4]
 
